@@ -149,6 +149,10 @@ AccFails(ev, r) ==
 Fails(ev, r) ==
   CASE ev.e = "Enc" -> EncFails(ev)
     [] ev.e = "EncTight" -> TightFails(ev)
+    [] ev.e = "EncEmpty" ->      \* the empty array: one header byte, and metadata that says so
+         Bad(ev.fault = 0, "C16", "encoding the empty array faulted")
+         \cup Bad(ev.fault # 0 \/ ev.written = 0 \/ (ev.msize = ev.written /\ ev.mcount = 0 /\ ev.mtype = ev.hdr0), "C16",
+                  "metadata of an empty encoding does not describe the bytes written")
     [] ev.e = "Dec" -> DecFails(ev, r)
     [] ev.e = "At" -> AtFails(ev, r)
     [] ev.e = "Blk" -> BlkFails(ev, r)
